@@ -221,7 +221,11 @@ def run_once(scn, ri, db, emit, seq_cfg=None):
                     for sp in spans:
                         holder.save_data(to_event(sp))
                 pv = []
-                for name, job_streams in holder.stream_data(None):
+                names = run.get("names") if k == len(run["phases"]) - 1 else None
+                if names:
+                    # stream_data's second parameter, a set of workflow names: logged as the pair filter it amounts to
+                    line("filter", sel=sorted({(n["name"], n["job"]) for n in snapshot(db)["nodes"] if n["name"] in names}))
+                for name, job_streams in holder.stream_data(None, set(names) if names else None):
                     for stream in sequence_otel_job_id_streams(job_streams, async_flag=False):
                         pv.append({"name": name, "evs": [
                             {"eid": e["eventId"], "ty": e["eventType"], "job": e["jobId"], "jname": e["jobName"],
